@@ -272,7 +272,13 @@ pub fn option_sets() -> Vec<Opts> {
                     if !convert && (s.is_some()) {
                         continue;
                     }
-                    v.push(Opts { convert_host: convert, class_prefix: p.map(|x| x.to_string()), host_is: h.map(|x| x.to_string()), class_prefix_sign: s.map(|x| x.to_string()), rpx_ratio: 750., import_sign: None });
+                    // (a ratio other than the default: the blocks of moved rules are converted with the configured ratio too)
+                    for ratio in [750f32, 300.] {
+                        if ratio != 750. && !(convert && s.is_none()) {
+                            continue;
+                        }
+                        v.push(Opts { convert_host: convert, class_prefix: p.map(|x| x.to_string()), host_is: h.map(|x| x.to_string()), class_prefix_sign: s.map(|x| x.to_string()), rpx_ratio: ratio, import_sign: None });
+                    }
                 }
             }
         }
@@ -408,7 +414,7 @@ pub fn explore(thorough: bool, result_path: &str) {
     });
     let res = rep.to_result(
         "C17",
-        "every rule tree of the stated shape (leaf kinds: ordinary, :host, @font-face{…}, :host(.a), :host .a, .a :host, :host,.b, :host:hover; wrappers @media/@supports/@layer; `:host` also spelled with a comment after the colon and with escapes) under every option set {convert_host} x {class_prefix} x {host_is} x {sign}; non-trivial = conversion on and at least one :host rule; distinct = distinct index",
+        "every rule tree of the stated shape (leaf kinds: ordinary, :host, @font-face{…}, :host(.a), :host .a, .a :host, :host,.b, :host:hover; wrappers @media/@supports/@layer; `:host` also spelled with a comment after the colon and with escapes) under every option set {convert_host} x {class_prefix} x {host_is} x {sign} (and, with conversion on, a second rpx ratio); non-trivial = conversion on and at least one :host rule; distinct = distinct index",
         json!({"depth_all_leaves": 1, "depth_three_leaves": d2, "list_lengths_per_level_deep": lens2, "flat_list_length": lens3[0], "option_sets": opts.len(), "option_sets_deep": 3, "host_spellings": HOST_SPELLINGS}),
         true,
         &["cssparser tokenizer trusted on both sides", "expected outputs are virtual model sheets run through the same token-level reference rewrite as C08"],
